@@ -69,6 +69,12 @@ def gen_cases(rng, tier):
         cases.append(["x%d" % n, "c12", "uas", "linger2xx=%d" % linger, "0:inv,1000:accept,%d:ack,41000:wait" % (1000 + a), "1", "ok2xx", "1000", str(1000 + a)]); n += 1
     # ACK with a wrong CSeq is not the awaited one
     cases.append(["x%d" % n, "c12", "uas", "-", "0:inv,1000:accept,1700:ack:999,3000:ack,50000:wait", "1", "ok2xx", "1000", "3000"]); n += 1
+    # ... nor one with a lower number (the dialog layer lets an ACK below the expected CSeq through to the usage: a late copy of the ACK of
+    # an earlier INVITE): the 2xx goes on being retransmitted until the ACK with the INVITE's number is there, or 64*T1 are over
+    for stray in (313, 1, 0):
+        cases.append(["x%d" % n, "c12", "uas", "-", "0:inv,1000:accept,1100:ack:%d,1200:ack,50000:wait" % stray, "1", "ok2xx", "1000", "1200"]); n += 1
+        cases.append(["x%d" % n, "c12", "uas", "-", "0:inv,1000:accept,1700:ack:%d,2100:ack:%d,5000:ack,50000:wait" % (stray, stray), "1", "ok2xx", "1000", "5000"]); n += 1
+        cases.append(["x%d" % n, "c12", "uas", "-", "0:inv,1000:accept,1700:ack:%d,50000:wait" % stray, "1", "ok2xx", "1000", "-"]); n += 1
     # ---- reliable provisional schedule
     rel = hx("Supported: 100rel\r\n")
     pts = grid(G1) if tier == "thorough" else grid(G1)[::2]
